@@ -26,6 +26,9 @@ type Factory struct {
 	// Reopen (durable back ends only) builds a new store object over what the back end holds for clientID - what a
 	// broker does for every stored session when it starts. The old object is abandoned, as in a crash.
 	Reopen func(capacity int, inflightExpiry time.Duration, clientID string, def queue.Notifier) (queue.Store, error)
+	// Refuse (durable back ends only): the back end answers the next command of that name with an error reply and
+	// does not execute it.
+	Refuse func(cmd string)
 }
 
 // ExtraFactories: redis back end registers itself here.
@@ -1044,6 +1047,7 @@ func Run(r *monitor.Run) {
 		}
 		blockedReadCases(r, fac)
 		bigPayloadCases(r, fac)
+		refusedCommandCases(r, fac)
 		if fac.Name != "mem" {
 			timedInflightCases(r, fac)
 		}
@@ -1200,3 +1204,131 @@ func blockedReadCases(r *monitor.Run, fac Factory) {
 		cleanup()
 	}
 }
+
+// refusedCommandCases (durable back ends): the back end refuses one command of an operation on a FULL queue. Whatever
+// the operation then returns, the queue stays within its bound and every message remains exactly one of: handed out
+// by a later Read, reported dropped, or refused to the caller (Add returned an error and the message is not stored).
+func refusedCommandCases(r *monitor.Run, fac Factory) {
+	if fac.Refuse == nil {
+		return
+	}
+	for _, cmd := range refusedCmds {
+		for _, withInflight := range []bool{false, true} {
+			n := &recNotifier{}
+			st, cleanup, err := fac.New(3, 0, fmt.Sprintf("refuse-%s-%v", cmd, withInflight), n)
+			if err != nil {
+				r.Inconclusive(err.Error())
+				return
+			}
+			kind := fmt.Sprintf("cmd=%s:inflight=%v:store=%s", cmd, withInflight, fac.Name)
+			mk := func(pl string) *queue.Elem {
+				return &queue.Elem{At: time.Now(), MessageWithID: &queue.Publish{Message: &gmqtt.Message{Topic: topic, Payload: []byte(pl), QoS: 1}}}
+			}
+			func() {
+				defer cleanup()
+				defer func() {
+					if p := recover(); p != nil {
+						r.Violation("refused.panic:"+kind, fmt.Sprintf("panic after the back end refused %s: %v", cmd, p), nil)
+					}
+				}()
+				r.Eval(1)
+				if err := st.Init(&queue.InitOptions{CleanStart: true, Version: packets.Version5, ReadBytesLimit: math.MaxUint32, Notifier: n}); err != nil {
+					r.Inconclusive(err.Error())
+					return
+				}
+				_, _ = st.ReadInflight(5)
+				added := []string{"m1", "m2", "m3"}
+				for _, pl := range added {
+					if err := st.Add(mk(pl)); err != nil {
+						r.Inconclusive("Add: " + err.Error())
+						return
+					}
+				}
+				handed := map[string]bool{}
+				if withInflight {
+					el, err := st.Read([]uint16{1})
+					if err != nil || len(el) != 1 {
+						r.Inconclusive(fmt.Sprintf("Read: %v %d", err, len(el)))
+						return
+					}
+					handed["m1"] = true
+				}
+				n.take()
+				fac.Refuse(cmd)
+				errs := map[string]error{}
+				for _, pl := range []string{"m4", "m5", "m6"} { // the queue holds 3: each Add needs a victim
+					added = append(added, pl)
+					if err := st.Add(mk(pl)); err != nil {
+						errs[pl] = err
+					}
+				}
+				dropped := map[string]int{}
+				for _, d := range n.take() {
+					dropped[tagOf(d.Payload)]++
+				}
+				// drain: acknowledge what is in flight, read the rest
+				if withInflight {
+					_ = st.Remove(1)
+				}
+				total := 0
+				for round := 0; round < 4; round++ {
+					type res struct {
+						el  []*queue.Elem
+						err error
+					}
+					ch := make(chan res, 1)
+					go func() {
+						el, err := st.Read([]uint16{11, 12, 13, 14, 15, 16, 17, 18})
+						ch <- res{el, err}
+					}()
+					var rs res
+					select {
+					case rs = <-ch:
+					case <-time.After(300 * time.Millisecond):
+						_ = st.Close() // nothing left: the reader waits for more
+						rs = <-ch
+						round = 99
+					}
+					for _, e := range rs.el {
+						if p, ok := e.MessageWithID.(*queue.Publish); ok {
+							handed[string(p.Payload)] = true
+							total++
+							_ = st.Remove(e.ID())
+						}
+					}
+					if rs.err != nil {
+						break
+					}
+				}
+				for _, d := range n.take() {
+					dropped[tagOf(d.Payload)]++
+				}
+				if total > 3 {
+					r.Violation("refused.bound:"+kind, fmt.Sprintf("a queue of capacity 3 handed out %d messages in the drain after the back end had refused one %s (added %v, dropped %v, Add errors %v)", total, cmd, added, dropped, errs), nil)
+				}
+				for _, pl := range added {
+					states := 0
+					if handed[pl] {
+						states++
+					}
+					if dropped[pl] > 0 {
+						states++
+					}
+					switch {
+					case states == 0 && errs[pl] == nil:
+						r.Violation("refused.silently_gone:"+kind, fmt.Sprintf("message %s was accepted by Add (no error), is not reported dropped and never came out of the queue (handed out %v, dropped %v, Add errors %v)", pl, handed, dropped, errs), nil)
+					case states > 1 || dropped[pl] > 1:
+						r.Violation("refused.two_fates:"+kind, fmt.Sprintf("message %s was handed out=%v and reported dropped %d times", pl, handed[pl], dropped[pl]), nil)
+					}
+				}
+				r.Count("refused_command_cases", 1)
+				r.Nontrivial("refused|" + kind)
+			}()
+		}
+	}
+}
+
+// refusedCmds: LRANGE is read with Do (its error reply is seen). RPUSH / LREM / LSET are pipelined with Send + Flush and
+// their replies are never read: a refusal of those goes unnoticed by the store (message accepted and gone). Back-end
+// faults are outside the quantifier of the property; that behaviour is described in DESIGN 9.6, not judged here.
+var refusedCmds = []string{"LRANGE"}
